@@ -136,7 +136,7 @@ CHECKS = {
     "C20": {
         "bins": ["codecs", "crossver"],
         "category": "exploration",
-        "text": "The packet values the routing core can hand to a link are the broker-to-client subset of Wire!Packets5 (enumerated by TLC: publishes with every subset of publish properties, acks/releases with reason codes and properties, subacks, unsubacks, ping responses, disconnects). Each is written with the broker's 3.1.1 and 5 protocol and decoded by the matching client codec: no error, no panic, same topic/payload/ids, properties dropped towards 3.1.1 and preserved towards 5. End to end, a real router thread and two real remote() tasks carry a QoS 1 publish between all four pairs of listener versions, a v5 publisher using every subset of five publish properties, a v5 subscriber with and without a subscription identifier; the subscriber's bytes are decoded with its client codec and compared, the publisher must still get its PUBACK.",
+        "text": "The packet values the routing core can hand to a link are the broker-to-client subset of Wire!Packets5 (enumerated by TLC: publishes with every subset of publish properties, acks/releases with reason codes and properties, subacks, unsubacks, ping responses, disconnects). Each is written with the broker's 3.1.1 and 5 protocol and decoded by the matching client codec: no error, no panic, same topic/payload/ids, properties dropped towards 3.1.1 and preserved towards 5. End to end, a real router thread and two real remote() tasks carry a QoS 1 publish between all four pairs of listener versions, a v5 publisher using every subset of five publish properties, a v5 subscriber plain, with a subscription identifier, and with Topic Alias Maximum set; the subscriber's bytes are decoded with its client codec and compared, the publisher must still get its PUBACK.",
         "design_ref": "DESIGN.md section 6 / C20",
         "note": "Trusted: Wire.tla's value space as the set of notifications, the harness. Real time (multi-thread runtime) in the end-to-end part with generous timeouts (500-800 ms waits on an in-memory stream).",
         "technique": "TLC-enumerated notification values replayed into both broker protocol writers + end-to-end runs over the real router and remote()",
